@@ -453,6 +453,27 @@ impl Driver for Jitter {
     }
 }
 
+/// Long-running systems: about half of the runs stay inside `run` for 1.5 .. 5 ms, so the groups
+/// of a stage end at clearly different times (milliseconds apart).
+pub struct Slow {
+    pub seed: u64,
+}
+impl Driver for Slow {
+    fn gate(&self, ctx: &Ctx, uid: u32, g: Gate) {
+        if g != Gate::PostRun {
+            return;
+        }
+        let d = ctx.disp.load(Relaxed) as u64;
+        let us = [0u64, 0, 1500, 3000, 5000, 800][(mix(mix(self.seed, uid as u64), d) % 6) as usize];
+        if us > 0 {
+            std::thread::sleep(Duration::from_micros(us));
+        }
+    }
+    fn name(&self) -> String {
+        format!("slow({:x})", self.seed)
+    }
+}
+
 /// Forced maximal overlap: the systems mapped to one rendezvous point wait for each other at
 /// `PreRun` (data already fetched). Bounded; on expiry the waiter gives up (amplifier only).
 pub struct Overlap {
